@@ -1,6 +1,7 @@
 import GoaktVerif.Driver.Util
 import GoaktVerif.Model.C16
 import GoaktVerif.Spec.C16
+import GoaktVerif.Driver.C16G
 
 namespace GoaktVerif.Driver.C16
 open GoaktVerif.Driver GoaktVerif.Model.C16 GoaktVerif.Spec.C16
@@ -142,6 +143,19 @@ def judge (line : String) : String :=
       | none => "ok"
       | some why => "bad " ++ why
 
-def run (args : List String) : IO UInt32 := runWith args model judge
+def isGrainCase (line : String) : Bool := (words ((line.splitOn "|").headD "")).head? == some "who=g"
+
+def modelAny (line : String) : String :=
+  if isGrainCase line then
+    match line.splitOn "|" with
+    | [cfg, ops] => GoaktVerif.Driver.C16G.model ((words cfg).drop 1) ops
+    | _ => "bad-case"
+  else model line
+
+def judgeAny (line : String) : String :=
+  let (c, o) := splitTab line
+  if isGrainCase c then GoaktVerif.Driver.C16G.judgeLine c o else judge line
+
+def run (args : List String) : IO UInt32 := runWith args modelAny judgeAny
 
 end GoaktVerif.Driver.C16
